@@ -2,22 +2,24 @@ package main
 
 // Binding to the guarded hooks in /repo (build tag verif). See hook_on.go.
 
+import "sync/atomic"
+
 type budgetAbort struct{ steps, limit int64 }
 
 var stepLimit int64 // 0 = unlimited
 var stepsSeen int64
 
-func stepCount() int64 { return stepsSeen }
+func stepCount() int64 { return atomic.LoadInt64(&stepsSeen) }
 
 // budgetFor is MaxSteps of DecodeSteps.tla: 4*len + 64 guarded reads.
 func budgetFor(n int) int64 {
-	stepsSeen = 0
+	atomic.StoreInt64(&stepsSeen, 0)
 	return int64(4*n + 64)
 }
 
 func onStep() {
-	stepsSeen++
-	if stepLimit > 0 && stepsSeen > stepLimit {
-		panic(budgetAbort{stepsSeen, stepLimit})
+	n := atomic.AddInt64(&stepsSeen, 1)
+	if lim := atomic.LoadInt64(&stepLimit); lim > 0 && n > lim {
+		panic(budgetAbort{n, lim})
 	}
 }
